@@ -113,6 +113,11 @@ class HistProp:
         # correspondence mismatches inside a known finding's region do not count twice
         known_cases = {f['case'] for f, _ in known_hits}
         nob, ndis, axioms, thlog = kv.check_theorems(pid)
+        chk_note = 'coqchk: thorough tier only'
+        if tier == 'thorough' and nob and ndis == nob:
+            okc, chk_note = kv.coqchk(pid)
+            if not okc:
+                ndis, thlog = 0, thlog + '\n' + chk_note
         violations = 0
         verdict_lines = []
         extra_cov = {}
@@ -178,7 +183,7 @@ class HistProp:
         cov = dict(
             obligations=nob, discharged=ndis,
             checker_cmd='coqc -Q . KV Properties/%s.v  (after make of the whole tree; cwd /verif/coq)' % pid,
-            trusted_base=TRUSTED + ['axioms reported by Print Assumptions: %s' % (axioms or 'none (closed under the global context)')],
+            trusted_base=TRUSTED + ['axioms reported by Print Assumptions: %s' % (axioms or 'none (closed under the global context)'), chk_note],
             evaluations=len(cases), distinct_nontrivial=len(nontriv),
             rule=self.rule, samples=[dict(name=n, ops=o) for n, o in cases[:2]],
             correspondence_result_lines_compared=nlines, correspondence_mismatches=len(mism),
